@@ -382,7 +382,8 @@ class SchemaBuilder(
                 else res["type"]
                 for res in results
             )
-            return json_schema(type=list(types))
+            # elements of a "type" array must be unique (e.g. Union[int, NewType(int)])
+            return json_schema(type=list(dict.fromkeys(types)))
         elif (
             len(results) == 2
             and all("type" in res for res in results)
